@@ -15,7 +15,7 @@ Picks == ndJsonDeserialize("picks.ndjson")
 Indices == IF Source = "all" THEN 1..NItems ELSE {Picks[i] : i \in 1..Len(Picks)}
 
 \* input class of a case (coverage report of the driver; not part of any verdict)
-SpecialChars == {".", "+", "(", "?"}
+SpecialChars == {".", "+", "(", "*"}
 HasSpecial(seg) == \E i \in 1..Len(seg) : seg[i] \in SpecialChars
 Classes(it, r, e, x) ==
     (IF e THEN {"engine-match"} ELSE {})
@@ -27,6 +27,8 @@ Classes(it, r, e, x) ==
     \cup (IF e /\ r.var = "ts" THEN {"trailing-slash-matched"} ELSE {})
     \cup (IF r.var = "uc" /\ EngineModel(it, r.mc, r.uc, "") THEN {"host-case-variant"} ELSE {})
     \cup (IF e /\ it.split THEN {"two-flows-one-url"} ELSE {})
+    \cup (IF \E i \in 1..Len(r.uc.p) : r.uc.p[i] = <<>> THEN {"empty-segment"} ELSE {})
+    \cup (IF e /\ IsCatchAll(it.pc) THEN (IF it.ms = {} THEN {"catch-all"} ELSE {"catch-all-with-methods"}) ELSE {})
 
 Group(i) ==
     LET it   == ItemSeq[i]
@@ -36,14 +38,18 @@ Group(i) ==
     IN [idx   |-> i,
         kind  |-> it.kind,
         split |-> it.split,
+        \* always also at the level of the loaded engine (the grouping / catch-all logic lives in its request builder)
+        eng   |-> it.split \/ IsCatchAll(it.pc),
         items |-> [k \in 1..Len(its) |-> [name |-> its[k].name, m |-> SetToSeq(its[k].ms), h |-> Host(its[k].p), p |-> Path(its[k].p)]],
         reqs  |-> [k \in 1..Len(reqs) |-> [m |-> Str(reqs[k].mc), h |-> StrSeq(reqs[k].uc.h),
                                            p |-> StrSeq(reqs[k].uc.p), var |-> reqs[k].var]],
         exp   |-> [k \in 1..Len(reqs) |->
                     LET e == EngineModel(it, reqs[k].mc, reqs[k].uc, reqs[k].var)
                         x == ProxyModel(it, reqs[k].mc, reqs[k].uc, reqs[k].var)
-                        obs == [engine |-> IF e THEN {"i1"} ELSE {}, proxy |-> x, manageAll |-> FALSE]
-                    IN [engine |-> e, proxy |-> x, v |-> Verdict(itps, ReqP(reqs[k]), obs),
+                        \* Filter.IsAnyURLAccepted: the request builder asks the proxy to manage everything
+                        mall == IsCatchAll(it.pc)
+                        obs == [engine |-> IF e THEN {"i1"} ELSE {}, proxy |-> x, manageAll |-> mall]
+                    IN [engine |-> e, proxy |-> x \/ mall, v |-> Verdict(itps, ReqP(reqs[k]), obs),
                         spells |-> \E ip \in itps : Spells(ip, ReqP(reqs[k])),
                         cls |-> SetToSeq(Classes(it, reqs[k], e, x))]]]
 
